@@ -1,8 +1,8 @@
 META = {
     "level": "model_checking",
     "technique": "TLA+ writer/reader state machine over bytes (WireCodec.tla: AddField/Rewind/GetField with RFC 4251 encoders and decoders defined on byte sequences, big integers as (sign, magnitude bytes)) model-checked by TLC over every message of a few fields and over single-field messages with boundary-rich values; each TLC-emitted message replayed on the real paramiko.Message; recorded add_*/get_* traces of seeded random messages (integers up to 4096 bits around every sign/byte boundary) validated by TLC against the same encoder, decoder and clause operators (WireCodec_Trace.tla)",
-    "text": "TLC enumerates every sequence of up to 2 (thorough: 4) fields over 14 values covering all nine field types, and every single-field message over all mpints whose magnitude is built from the byte classes {0,1,127,128,255} up to 3 (4) bytes, all integers -1100..1100 (-40000..40000), boundary uint32/uint64/adaptive values, strings, UTF-8 texts of 1-4 byte code points and name-lists; it checks on the model that read-back values equal written values in order, that already-read plus unread bytes always equal the message, that the wire is the concatenation of the field encodings, and that every mpint is the minimal two's complement form (zero = empty string, characterised independently of the encoder) denoting the integer written; every emitted message is written and read by the real Message and compared byte for byte; seeded random messages of 1-8 fields and mpints/adaptive ints at +-2^(8k), +-2^(8k-1), +-(2^(8k)-1), +-1 around them for k up to 512 are judged by TLC",
-    "note": "trusted: TLC, int<->(sign, magnitude bytes) and str<->code point conversions in the driver, Python's own UTF-8 for rendering texts; name-lists are non-empty with non-empty comma-free names and texts exclude surrogates (statement / DESIGN.md Appendix F); byte layout of non-mpint fields is a conformance clause (the statement only demands the round trip for them), mpint layout is a property clause; Message.add() (type-guessing) is not covered",
+    "text": "TLC enumerates every sequence of up to 2 (thorough: 4) fields over 14 values covering all nine field types, and every single-field message over all mpints whose magnitude is built from the byte classes {0,1,127,128,255} up to 3 (4) bytes, all integers -1100..1100 (-40000..40000), boundary uint32/uint64/adaptive values, strings, UTF-8 texts of 1-4 byte code points and name-lists; it checks on the model that read-back values equal written values in order, that already-read plus unread bytes always equal the message, that the wire is the concatenation of the field encodings, and that every mpint is the minimal two's complement form (zero = empty string, characterised independently of the encoder) denoting the integer written; every emitted message is written and read by the real Message and compared byte for byte; seeded random messages of 1-8 fields and mpints/adaptive ints at +-2^(8k), +-2^(8k-1), +-(2^(8k)-1), +-1 around them for k up to 512 are judged by TLC; a few messages carry a string, text or name-list of 2^20-1, 2^20, 2^20+1 or 3*2^20+5 bytes followed by a small field (TLC judges lengths, headers, positions and SHA-256 digests computed by the driver)",
+    "note": "trusted: TLC, int<->(sign, magnitude bytes) and str<->code point conversions in the driver, Python's own UTF-8 for rendering texts; name-lists are non-empty with non-empty comma-free names and texts exclude surrogates (statement / DESIGN.md Appendix F); byte layout of non-mpint fields is a conformance clause (the statement only demands the round trip for them), mpint layout is a property clause; Message.add() (type-guessing) is not covered; for megabyte fields the driver's SHA-256 / length summaries and its so_far+remainder comparison are derived facts TLC relies on; megabyte mpints are not exercised (the statement bounds integers at 4096 bits; one get_mpint of 2^20 bytes takes minutes)",
 }
 import random
 from harness.core import cfg_text, Machinery
@@ -22,6 +22,8 @@ def cfg(vals, maxfields, maglen=1, intrange=1, zero_as_byte=False, mutation="non
 
 def show_field(f):
     t = f["t"]
+    if t in codec.HUGE_TYPES or "digest" in f:
+        return "%s(%d bytes, sha256 %s..)" % (t, f["len"], f["digest"][:8]) if t != "other" else "<wrong type>"
     if t in ("uint32", "uint64", "adaptive", "mpint"):
         v = codec.value_of(f)
         return "%s(%s)" % (t, v if abs(v) < 10 ** 12 else "%s0x%x.. [%d bits]" % ("-" if v < 0 else "", abs(v) >> (abs(v).bit_length() - 16), abs(v).bit_length()))
@@ -43,6 +45,8 @@ def describe(rec, k):
     fs = rec["fields"]
     where = show_field(fs[k - 1]) if 1 <= k <= len(fs) else "step %d" % k
     seg = bytes(rec["wire"][(rec["ends"][k - 2] if k >= 2 else 0):rec["ends"][k - 1]]) if 1 <= k <= len(rec["ends"]) else b""
+    if rec["huge"] and 1 <= k <= len(rec["writes"]):
+        seg = bytes(rec["writes"][k - 1]["seg"] or rec["writes"][k - 1]["header"])
     back = show_field(rec["reads"][k - 1]["val"]) if 1 <= k <= len(rec["reads"]) else "-"
     return "field %d of [%s]: %s written as %s, read back as %s%s" % (
         k, ", ".join(show_field(f) for f in fs[:8]), where, seg[:24].hex() + (".." if len(seg) > 24 else ""), back,
@@ -99,7 +103,7 @@ def random_field(rnd):
 
 def judge(c, batch):
     """TLC judges every record (in chunks: one JSON file per TLC start); returns the flagged trace numbers"""
-    keep = ("fields", "ends", "wire", "reads", "aborted")
+    keep = ("fields", "ends", "wire", "reads", "aborted", "huge", "writes")
     flagged, verdicts, size = set(), [], 8000
     for lo in range(0, len(batch), size):
         chunk = batch[lo:lo + size]
@@ -116,7 +120,8 @@ def judge(c, batch):
         rec = batch[tid - 1]
         f = rec["fields"][k - 1] if 1 <= k <= len(rec["fields"]) else None
         key = "%s:%s" % (name, value_class(f) if f else "step")
-        return key, "%s fails at %s" % (name, describe(rec, k)), {"fields": rec["fields"], "reuse": rec["reuse"]}
+        rp = {"items": rec["items"], "reuse": rec["reuse"]} if rec["huge"] else {"fields": rec["fields"], "reuse": rec["reuse"]}
+        return key, "%s fails at %s" % (name, describe(rec, k)), rp
     verdicts.sort(key=lambda row: len(batch[row[1] - 1]["wire"]))       # report the smallest message per key
     c.verdicts(verdicts, one)
     return flagged
@@ -124,7 +129,10 @@ def judge(c, batch):
 
 def replay(c, rp):
     """bin/check C39 --replay replays/C39/<key>.json : the recorded message again"""
-    rec = codec.run_wire_message(rp["fields"], reuse=rp.get("reuse", True))
+    if "items" in rp:
+        rec = codec.run_wire_huge([tuple(it) for it in rp["items"]], reuse=rp.get("reuse", True))
+    else:
+        rec = codec.run_wire_message(rp["fields"], reuse=rp.get("reuse", True))
     c.case(key="replay", sample={"fields": [show_field(f) for f in rec["fields"]], "wire": bytes(rec["wire"]).hex()})
     judge(c, [rec])
     c.traces += 1
@@ -180,6 +188,19 @@ def run(c):
         fs = [random_field(rnd) for _ in range(rnd.randint(1, 8))]
         batch.append(codec.run_wire_message(fs, reuse=rnd.random() < 0.5, binary=rnd.random() < 0.5))
         c.case(key=repr(fs))
+    # ---- ... and a few messages with one huge field (the statement has no size bound) followed by a small one:
+    # 2^20 - 1, 2^20, 2^20 + 1 and 3 * 2^20 + 5 bytes of string / text / name-list; TLC sees lengths and digests
+    M = 1 << 20
+    plan = ([("hstring", M), ("hstring", M + 1), ("htext", M + 1), ("hlist", 3 * M + 5)] if c.quick else
+            [(t, n) for t in sorted(codec.HUGE_TYPES) for n in (M - 1, M, M + 1, 3 * M + 5)])
+    for j, (t, n) in enumerate(plan * (1 if c.quick else 2)):
+        small = random_field(rnd)
+        rec = codec.run_wire_huge([("huge", t, n, rnd.randrange(1 << 30)), ("small", small)] + ([("huge", "hstring", M + 7, j)] if j % 4 == 3 else []),
+                                  reuse=(j % 2 == 0), binary=(j % 3 == 0))
+        if not rec["aborted"] and rec["fields"][0]["len"] != n:
+            raise Machinery("huge %s of %d bytes came out as %d bytes in the driver" % (t, n, rec["fields"][0]["len"]))
+        batch.append(rec)
+        c.case(key=("huge", t, n, j))
     flagged = judge(c, batch)
     c.traces += len(batch) - n_rp
     for tid in range(1, n_rp + 1):
@@ -194,8 +215,8 @@ def run(c):
     c.rule = ("every message of up to %d fields over 14 values of the 9 field types + every single-field message over mpints with "
               "magnitudes from byte classes up to %d bytes, integers -%d..%d, boundary uint32/uint64/adaptive values, strings, texts, "
               "name-lists (TLC-enumerated, %d messages) + mpint/adaptive boundaries +-2^(8k), +-2^(8k-1), +-1 around them for %d values "
-              "of k <= 512 + seeded random messages of 1-8 fields; distinct = distinct messages"
-              % (maxf, maglen, irange, irange, len(cases), len(list(ks))))
+              "of k <= 512 + seeded random messages of 1-8 fields + %d messages with a string / text / name-list of 2^20-1 .. 3*2^20+5 bytes followed by a small field; distinct = distinct messages"
+              % (maxf, maglen, irange, irange, len(cases), len(list(ks)), len(plan) * (1 if c.quick else 2)))
     c.extra["exhaustive"] = True
     c.assumptions = ["values are written with the add_* method of their type and read with the matching get_*",
                      "uint32/uint64 values are in range; adaptive ints are non-negative; texts and names contain no surrogates; names are non-empty and comma-free"]
